@@ -189,13 +189,6 @@ Qed.
 
 (* ------------------------------------------------------------ in-memory: the Lock loop *)
 
-Lemma live_key_nil now k t o e :
-  live_key now k t = [] -> lookup k t = Some (o, e) -> expired now e = true.
-Proof.
-  unfold live_key, live. intros H Hl. rewrite Hl in H.
-  destruct (expired now e); auto. discriminate.
-Qed.
-
 Lemma heldb_lookup t now k o : heldb t now k o = true -> exists e, lookup k t = Some (o, e) /\ expired now e = false.
 Proof.
   unfold heldb. destruct (lookup k t) as [[o' e]|]; [|discriminate].
@@ -216,19 +209,42 @@ Proof.
   rewrite insert_key_In, IH. intuition.
 Qed.
 
-Lemma add_ev_inv ev0 (out : outcome) t' rs ev :
-  add_ev ev0 out = (t', rs, ev) -> fst out = (t', rs) /\ ev = ev0 ++ snd out.
-Proof. unfold add_ev. intros H. inversion H. auto. Qed.
+Lemma in_single {A} (x y : A) : In x [y] -> x = y.
+Proof. intros [H|[]]. auto. Qed.
 
-(* a live entry that the caller does not own-and-ask-for survives the whole Lock
-   command, unless an unexpired entry was evicted *)
-Lemma im_lock_loop_frame cfg now o e : forall ks acq t t' rs ev,
-  In (t', rs, ev) (im_lock_loop cfg now o e ks acq t) -> ev = [] ->
+Lemma not_held_lookup now k t o e :
+  not_held now k t = true -> lookup k t = Some (o, e) -> expired now e = true.
+Proof.
+  unfold not_held, live. intros H Hl. rewrite Hl in H.
+  destruct (expired now e); [reflexivity|discriminate].
+Qed.
+
+(* making room for a new key never removes an unexpired entry: the eviction victim is
+   always an expired entry (isHeldLock), and without one nothing is evicted *)
+Lemma make_room_frame cfg now t k t2 :
+  In t2 (make_room cfg now t k) ->
+  forall k1 o1 e1, lookup k1 t = Some (o1, e1) -> expired now e1 = false -> lookup k1 t2 = Some (o1, e1).
+Proof.
+  unfold make_room. intros Hin k1 o1 e1 Hl Hlive.
+  destruct (Nat.leb (im_cap cfg) (length (shard_entries cfg t (im_shard cfg k)))).
+  - destruct (im_victims cfg now t k) as [|c0 vs] eqn:Hv.
+    + apply in_single in Hin. subst. auto.
+    + apply in_map_iff in Hin. destruct Hin as [c [Hc Hin]]. subst t2.
+      rewrite <- Hv in Hin. unfold im_victims in Hin. apply filter_In in Hin. destruct Hin as [_ Hf].
+      apply andb_true_iff in Hf. destruct Hf as [Hnh _].
+      rewrite lookup_remove_neq; auto.
+      intros Heq. subst k1. rewrite (not_held_lookup _ _ _ _ _ Hnh Hl) in Hlive. discriminate.
+  - apply in_single in Hin. subst. auto.
+Qed.
+
+(* a live entry that the caller does not own-and-ask-for survives the whole Lock command *)
+Lemma im_lock_loop_frame cfg now o e : forall ks acq t t' rs,
+  In (t', rs) (im_lock_loop cfg now o e ks acq t) ->
   forall k1 o1 e1, lookup k1 t = Some (o1, e1) -> expired now e1 = false ->
     ~ (o1 = o /\ (In k1 ks \/ In k1 acq)) -> lookup k1 t' = Some (o1, e1).
 Proof.
-  induction ks as [|k r IH]; intros acq t t' rs ev Hin Hev k1 o1 e1 Hl Hlive Hn.
-  - cbn in Hin. destruct Hin as [Hin|[]]. inversion Hin; subst. auto.
+  induction ks as [|k r IH]; intros acq t t' rs Hin k1 o1 e1 Hl Hlive Hn.
+  - cbn in Hin. apply in_single in Hin. inversion Hin; subst. auto.
   - cbn [im_lock_loop] in Hin.
     assert (Hn' : forall acq', (forall x, In x acq' -> x = k \/ In x acq) ->
                                ~ (o1 = o /\ (In k1 r \/ In k1 acq'))).
@@ -238,104 +254,90 @@ Proof.
     destruct (lookup k t) as [[o' e']|] eqn:Hk.
     + destruct (expired now e') eqn:Hexp.
       * assert (Hne : k1 <> k). { intros Heq. subst k1. rewrite Hk in Hl. inversion Hl; subst. congruence. }
-        eapply IH; eauto.
+        apply (IH (k :: acq) (upsert k (o, e) t) t' rs Hin k1 o1 e1); auto.
         -- rewrite lookup_upsert. assert (Hb : k1 =? k = false) by (apply N.eqb_neq; auto). rewrite Hb. auto.
         -- apply Hn'. intros x [Hx|Hx]; auto.
       * destruct (o' =? o) eqn:Ho.
-        -- eapply IH; eauto.
-        -- destruct Hin as [Hin|[]]. inversion Hin; subst.
+        -- apply (IH acq t t' rs Hin k1 o1 e1); auto.
+        -- apply in_single in Hin. inversion Hin; subst.
            rewrite lookup_release_own. rewrite Hl.
            destruct ((o1 =? o) && mem k1 acq) eqn:Hm; auto.
            apply andb_true_iff in Hm. destruct Hm as [Hm1 Hm2]. apply N.eqb_eq in Hm1. apply mem_In in Hm2.
            exfalso. apply Hn. auto.
     + assert (Hne : k1 <> k). { intros Heq. subst k1. congruence. }
       assert (Hb : k1 =? k = false) by (apply N.eqb_neq; auto).
-      destruct (Nat.leb (im_cap cfg) (length (shard_entries cfg t (im_shard cfg k)))).
-      * apply in_flat_map in Hin. destruct Hin as [c [Hc Hin]].
-        apply in_map_iff in Hin. destruct Hin as [out [Hout Hin]].
-        destruct out as [[t2 rs2] ev2]. apply add_ev_inv in Hout. cbn in Hout. destruct Hout as [Hf Hevq].
-        inversion Hf; subst t2 rs2. rewrite Hevq in Hev. apply app_eq_nil in Hev. destruct Hev as [Hev1 Hev2].
-        assert (Hnc : k1 <> fst c).
-        { intros Heq. subst k1. rewrite (live_key_nil _ _ _ _ _ Hev1 Hl) in Hlive. discriminate. }
-        eapply IH; eauto.
-        -- rewrite lookup_upsert, Hb. rewrite lookup_remove_neq; auto.
-        -- apply Hn'. intros x [Hx|Hx]; auto.
-      * eapply IH; eauto.
-        -- rewrite lookup_upsert, Hb. auto.
-        -- apply Hn'. intros x [Hx|Hx]; auto.
+      apply in_flat_map in Hin. destruct Hin as [t2 [Ht2 Hin]].
+      apply (IH (k :: acq) (upsert k (o, e) t2) t' rs Hin k1 o1 e1); auto.
+      * rewrite lookup_upsert, Hb. eapply make_room_frame; eauto.
+      * apply Hn'. intros x [Hx|Hx]; auto.
 Qed.
 
 (* on a successful outcome the caller's live entries stay its own and live *)
-Lemma im_lock_loop_keeps cfg now o e : expired now e = false -> forall ks acq t t' oth ev,
-  In (t', (true, oth), ev) (im_lock_loop cfg now o e ks acq t) -> ev = [] ->
+Lemma im_lock_loop_keeps cfg now o e : expired now e = false -> forall ks acq t t' oth,
+  In (t', (true, oth)) (im_lock_loop cfg now o e ks acq t) ->
   forall k1 e1, lookup k1 t = Some (o, e1) -> expired now e1 = false ->
   exists e2, lookup k1 t' = Some (o, e2) /\ expired now e2 = false.
 Proof.
-  intros He. induction ks as [|k r IH]; intros acq t t' oth ev Hin Hev k1 e1 Hl Hlive.
-  - cbn in Hin. destruct Hin as [Hin|[]]. inversion Hin; subst. eauto.
+  intros He. induction ks as [|k r IH]; intros acq t t' oth Hin k1 e1 Hl Hlive.
+  - cbn in Hin. apply in_single in Hin. inversion Hin; subst. eauto.
   - cbn [im_lock_loop] in Hin.
     destruct (lookup k t) as [[o' e']|] eqn:Hk.
     + destruct (expired now e') eqn:Hexp.
       * assert (Hne : k1 <> k). { intros Heq. subst k1. rewrite Hk in Hl. inversion Hl; subst. congruence. }
-        eapply IH; eauto.
-        rewrite lookup_upsert. assert (Hb : k1 =? k = false) by (apply N.eqb_neq; auto). rewrite Hb. eauto.
+        apply (IH (k :: acq) (upsert k (o, e) t) t' oth Hin k1 e1); auto.
+        rewrite lookup_upsert. assert (Hb : k1 =? k = false) by (apply N.eqb_neq; auto). rewrite Hb. auto.
       * destruct (o' =? o) eqn:Ho.
-        -- eapply IH; eauto.
-        -- destruct Hin as [Hin|[]]. inversion Hin.
+        -- apply (IH acq t t' oth Hin k1 e1); auto.
+        -- apply in_single in Hin. inversion Hin.
     + assert (Hne : k1 <> k). { intros Heq. subst k1. congruence. }
       assert (Hb : k1 =? k = false) by (apply N.eqb_neq; auto).
-      destruct (Nat.leb (im_cap cfg) (length (shard_entries cfg t (im_shard cfg k)))).
-      * apply in_flat_map in Hin. destruct Hin as [c [Hc Hin]].
-        apply in_map_iff in Hin. destruct Hin as [out [Hout Hin]].
-        destruct out as [[t2 rs2] ev2]. apply add_ev_inv in Hout. cbn in Hout. destruct Hout as [Hf Hevq].
-        inversion Hf; subst t2 rs2. rewrite Hevq in Hev. apply app_eq_nil in Hev. destruct Hev as [Hev1 Hev2].
-        assert (Hnc : k1 <> fst c).
-        { intros Heq. subst k1. rewrite (live_key_nil _ _ _ _ _ Hev1 Hl) in Hlive. discriminate. }
-        eapply IH; eauto.
-        rewrite lookup_upsert, Hb. rewrite lookup_remove_neq; eauto.
-      * eapply IH; eauto. rewrite lookup_upsert, Hb. eauto.
+      apply in_flat_map in Hin. destruct Hin as [t2 [Ht2 Hin]].
+      apply (IH (k :: acq) (upsert k (o, e) t2) t' oth Hin k1 e1); auto.
+      rewrite lookup_upsert, Hb. eapply make_room_frame; eauto.
 Qed.
 
-(* a successful outcome leaves an entry of the caller for every key asked for *)
-Lemma im_lock_loop_grants cfg now o e : expired now e = false -> forall ks acq t t' oth ev,
-  In (t', (true, oth), ev) (im_lock_loop cfg now o e ks acq t) -> ev = [] ->
-  forall k, In k ks -> exists e2, lookup k t' = Some (o, e2).
+(* a successful outcome leaves a live entry of the caller for every key asked for *)
+Lemma im_lock_loop_holds cfg now o e : expired now e = false -> forall ks acq t t' oth,
+  In (t', (true, oth)) (im_lock_loop cfg now o e ks acq t) ->
+  forall k, In k ks -> exists e2, lookup k t' = Some (o, e2) /\ expired now e2 = false.
 Proof.
-  intros He. induction ks as [|k0 r IH]; intros acq t t' oth ev Hin Hev k Hk; [destruct Hk|].
-  assert (Hfin : forall acq2 t2 ev2 ex, In (t', (true, oth), ev2) (im_lock_loop cfg now o e r acq2 t2) ->
-            ev2 = [] -> lookup k0 t2 = Some (o, ex) -> expired now ex = false ->
-            exists e2, lookup k t' = Some (o, e2)).
-  { intros acq2 t2 ev2 ex Hin2 Hev2 Hl2 Hx. destruct Hk as [Hk|Hk].
-    - subst k. destruct (im_lock_loop_keeps cfg now o e He r acq2 t2 t' oth ev2 Hin2 Hev2 k0 ex Hl2 Hx) as [e2 [H1 _]].
-      eauto.
-    - eapply IH; eauto. }
+  intros He. induction ks as [|k0 r IH]; intros acq t t' oth Hin k Hk; [destruct Hk|].
+  assert (Hfin : forall acq2 t2 ex, In (t', (true, oth)) (im_lock_loop cfg now o e r acq2 t2) ->
+            lookup k0 t2 = Some (o, ex) -> expired now ex = false ->
+            exists e2, lookup k t' = Some (o, e2) /\ expired now e2 = false).
+  { intros acq2 t2 ex Hin2 Hl2 Hx. destruct Hk as [Hk|Hk].
+    - subst k. apply (im_lock_loop_keeps cfg now o e He r acq2 t2 t' oth Hin2 k0 ex Hl2 Hx).
+    - apply (IH acq2 t2 t' oth Hin2 k Hk). }
   cbn [im_lock_loop] in Hin.
   destruct (lookup k0 t) as [[o' e']|] eqn:Hk0.
   - destruct (expired now e') eqn:Hexp.
-    + eapply Hfin; eauto. rewrite lookup_upsert, N.eqb_refl. auto.
+    + apply (Hfin (k0 :: acq) (upsert k0 (o, e) t) e Hin); auto. rewrite lookup_upsert, N.eqb_refl. auto.
     + destruct (o' =? o) eqn:Ho.
-      * apply N.eqb_eq in Ho. subst o'. eapply Hfin; eauto.
-      * destruct Hin as [Hin|[]]. inversion Hin.
-  - destruct (Nat.leb (im_cap cfg) (length (shard_entries cfg t (im_shard cfg k0)))).
-    + apply in_flat_map in Hin. destruct Hin as [c [Hc Hin]].
-      apply in_map_iff in Hin. destruct Hin as [out [Hout Hin]].
-      destruct out as [[t2 rs2] ev2]. apply add_ev_inv in Hout. cbn in Hout. destruct Hout as [Hf Hevq].
-      inversion Hf; subst t2 rs2. rewrite Hevq in Hev. apply app_eq_nil in Hev. destruct Hev as [Hev1 Hev2].
-      eapply Hfin; eauto. rewrite lookup_upsert, N.eqb_refl. auto.
-    + eapply Hfin; eauto. rewrite lookup_upsert, N.eqb_refl. auto.
+      * apply N.eqb_eq in Ho. subst o'. apply (Hfin acq t e' Hin); auto.
+      * apply in_single in Hin. inversion Hin.
+  - apply in_flat_map in Hin. destruct Hin as [t2 [Ht2 Hin]].
+    apply (Hfin (k0 :: acq) (upsert k0 (o, e) t2) e Hin); auto. rewrite lookup_upsert, N.eqb_refl. auto.
+Qed.
+
+Lemma im_lock_loop_grants cfg now o e : expired now e = false -> forall ks acq t t' oth,
+  In (t', (true, oth)) (im_lock_loop cfg now o e ks acq t) ->
+  forall k, In k ks -> exists e2, lookup k t' = Some (o, e2).
+Proof.
+  intros He ks acq t t' oth Hin k Hk.
+  destruct (im_lock_loop_holds cfg now o e He ks acq t t' oth Hin k Hk) as [e2 [H1 _]]. eauto.
 Qed.
 
 (* ------------------------------------------------------------ in-memory: one command *)
 
-Lemma im_lock_props cfg s o d ks s' rs ev :
-  In (s', rs, ev) (im_lock cfg s o d ks) -> ev = [] ->
+Lemma im_lock_props cfg s o d ks s' rs :
+  In (s', rs) (im_lock cfg s o d ks) ->
   im_now s' = im_now s /\
   (forall k1 o1 e1, lookup k1 (im_tbl s) = Some (o1, e1) -> expired (im_now s) e1 = false ->
      ~ (o1 = o /\ In k1 ks) -> lookup k1 (im_tbl s') = Some (o1, e1)) /\
   (fst rs = true -> forall k, In k ks -> exists e2, lookup k (im_tbl s') = Some (o, e2)).
 Proof.
-  unfold im_lock. intros Hin Hev. apply in_map_iff in Hin. destruct Hin as [out [Hout Hin]].
-  destruct out as [[t2 rs2] ev2]. unfold im_out in Hout. cbn in Hout. inversion Hout; subst s' rs2 ev2. clear Hout.
+  unfold im_lock. intros Hin. apply in_map_iff in Hin. destruct Hin as [out [Hout Hin]].
+  destruct out as [t2 rs2]. unfold im_out in Hout. cbn in Hout. inversion Hout; subst s' rs2. clear Hout.
   cbn. split; [auto|split].
   - intros k1 o1 e1 Hl Hlive Hn. eapply im_lock_loop_frame; eauto.
     intros [Ho [Hk|[]]]. apply Hn. split; auto. apply sort_keys_In. auto.
@@ -368,27 +370,25 @@ Proof.
   - eapply IH; eauto.
 Qed.
 
-Lemma in_single {A} (x y : A) : In x [y] -> x = y.
-Proof. intros [H|[]]. auto. Qed.
-
-(* the invariant survives every in-memory command that evicts no unexpired entry *)
-Lemma im_step_inv cfg s b s' rs ev p :
-  inv (im_tbl s) (im_now s) b -> In (s', rs, ev) (im_step cfg s p) -> ev = [] ->
+(* the invariant survives every in-memory command, whatever the capacity and whichever
+   victim an eviction picks *)
+Lemma im_step_inv cfg s b s' rs p :
+  inv (im_tbl s) (im_now s) b -> In (s', rs) (im_step cfg s p) ->
   inv (im_tbl s') (im_now s') (bel_update (im_tbl s') (im_now s') p rs b).
 Proof.
-  intros Hi Hin Hev. destruct p as [o d ks|o d ks|o ks|o d ks|ks|o ks|n]; cbn [im_step] in Hin.
+  intros Hi Hin. destruct p as [o d ks|o d ks|o ks|o d ks|ks|o ks|n]; cbn [im_step] in Hin.
   - (* Lock *)
-    destruct (im_lock_props _ _ _ _ _ _ _ _ Hin Hev) as [Hnow [Hfr Hgr]].
+    destruct (im_lock_props _ _ _ _ _ _ _ Hin) as [Hnow [Hfr Hgr]].
     apply (inv_step (im_tbl s) (im_now s) b); [exact Hi| | |].
     + rewrite Hnow. lia.
     + intros o1 k1 e1 Hl Hlive Hs. exists e1. split; [|apply exp_le_refl].
       rewrite Hnow in Hlive. apply Hfr; auto; apply (Hs o ks eq_refl).
     + intros o0 ks0 Heq Hg k Hk. inversion Heq; subst o0 ks0. cbn in Hg. eauto.
   - (* DualLock *)
-    apply in_map_iff in Hin. destruct Hin as [x [Hx Hin]]. destruct x as [[s1 rs1] ev1]. cbn in Hx.
+    apply in_map_iff in Hin. destruct Hin as [x [Hx Hin]]. destruct x as [s1 rs1]. cbn in Hx.
     destruct (fst rs1) eqn:Hok.
-    + inversion Hx; subst s' rs ev1. clear Hx.
-      destruct (im_lock_props _ _ _ _ _ _ _ _ Hin Hev) as [Hnow [Hfr Hgr]].
+    + inversion Hx; subst s' rs. clear Hx.
+      destruct (im_lock_props _ _ _ _ _ _ _ Hin) as [Hnow [Hfr Hgr]].
       apply (inv_step (im_tbl s) (im_now s) b); [exact Hi| | |].
       * rewrite Hnow. lia.
       * intros o1 k1 e1 Hl Hlive Hs. exists e1. split; [|apply exp_le_refl].
@@ -396,15 +396,15 @@ Proof.
       * intros o0 ks0 Heq Hg k Hk. inversion Heq; subst o0 ks0. cbn in Hg.
         unfold im_is_locked in Hg. rewrite forallb_forall in Hg.
         destruct (heldb_lookup _ _ _ _ (Hg k Hk)) as [e [Hl _]]. eauto.
-    + inversion Hx; subst s' rs ev1. clear Hx.
-      destruct (im_lock_props _ _ _ _ _ _ _ _ Hin Hev) as [Hnow [Hfr Hgr]].
+    + inversion Hx; subst s' rs. clear Hx.
+      destruct (im_lock_props _ _ _ _ _ _ _ Hin) as [Hnow [Hfr Hgr]].
       apply (inv_step (im_tbl s) (im_now s) b); [exact Hi| | |].
       * rewrite Hnow. lia.
       * intros o1 k1 e1 Hl Hlive Hs. exists e1. split; [|apply exp_le_refl].
         rewrite Hnow in Hlive. apply Hfr; auto; apply (Hs o ks eq_refl).
       * intros o0 ks0 Heq Hg k Hk. cbn in Hg. congruence.
   - (* IsLocked *)
-    apply in_single in Hin. inversion Hin; subst s' rs ev. clear Hin.
+    apply in_single in Hin. inversion Hin; subst s' rs. clear Hin.
     apply (inv_step (im_tbl s) (im_now s) b); [exact Hi| | |].
     + lia.
     + intros o1 k1 e1 Hl _ _. exists e1. split; auto using exp_le_refl.
@@ -413,7 +413,7 @@ Proof.
       destruct (heldb_lookup _ _ _ _ (Hg k Hk)) as [e [Hl _]]. eauto.
   - (* IsLockedTTL *)
     destruct (fst (im_ttl_check (im_now s) o ks (im_tbl s))) eqn:Hc;
-      apply in_single in Hin; inversion Hin; subst s' rs ev; clear Hin; cbn [im_tbl im_now].
+      apply in_single in Hin; inversion Hin; subst s' rs; clear Hin; cbn [im_tbl im_now].
     + apply (inv_step (im_tbl s) (im_now s) b); [exact Hi| | |].
       * lia.
       * intros o1 k1 e1 Hl Hlive Hs. rewrite lookup_refresh.
@@ -429,13 +429,13 @@ Proof.
         apply im_ttl_check_frame; auto.
       * intros o0 ks0 Heq Hg k Hk. cbn in Hg. discriminate.
   - (* IsLockedByOthers *)
-    apply in_single in Hin. inversion Hin; subst s' rs ev. clear Hin.
+    apply in_single in Hin. inversion Hin; subst s' rs. clear Hin.
     apply (inv_step (im_tbl s) (im_now s) b); [exact Hi| | |].
     + lia.
     + intros o1 k1 e1 Hl _ _. exists e1. split; auto using exp_le_refl.
     + intros o0 ks0 Heq. discriminate.
   - (* Unlock *)
-    apply in_single in Hin. inversion Hin; subst s' rs ev. clear Hin. cbn [im_tbl im_now].
+    apply in_single in Hin. inversion Hin; subst s' rs. clear Hin. cbn [im_tbl im_now].
     apply (inv_step (im_tbl s) (im_now s) b); [exact Hi| | |].
     + lia.
     + intros o1 k1 e1 Hl Hlive Hs. exists e1. split; [|apply exp_le_refl].
@@ -445,40 +445,82 @@ Proof.
       exfalso. apply (Hs o ks eq_refl). auto.
     + intros o0 ks0 Heq Hg. cbn in Hg. discriminate.
   - (* Tick *)
-    apply in_single in Hin. inversion Hin; subst s' rs ev. clear Hin. cbn [im_tbl im_now].
+    apply in_single in Hin. inversion Hin; subst s' rs. clear Hin. cbn [im_tbl im_now].
     apply (inv_step (im_tbl s) (im_now s) b); [exact Hi| | |].
     + lia.
     + intros o1 k1 e1 Hl _ _. exists e1. split; auto using exp_le_refl.
     + intros o0 ks0 Heq. discriminate.
 Qed.
 
-(* ... hence every run of commands without such an eviction *)
-Lemma im_run_inv cfg : forall ops s b s' b' ev,
-  inv (im_tbl s) (im_now s) b -> In (s', b', ev) (im_run cfg ops s b) -> ev = [] ->
+(* ... hence every run of commands *)
+Lemma im_run_inv cfg : forall ops s b s' b',
+  inv (im_tbl s) (im_now s) b -> In (s', b') (im_run cfg ops s b) ->
   inv (im_tbl s') (im_now s') b'.
 Proof.
-  induction ops as [|p r IH]; intros s b s' b' ev Hi Hin Hev.
+  induction ops as [|p r IH]; intros s b s' b' Hi Hin.
   - apply in_single in Hin. inversion Hin; subst. auto.
   - cbn [im_run] in Hin. apply in_flat_map in Hin. destruct Hin as [out [Hout Hin]].
-    apply in_map_iff in Hin. destruct Hin as [x [Hx Hin]].
-    destruct out as [[s1 rs1] ev1]. destruct x as [[s2 b2] ev2]. cbn in Hx, Hin.
-    injection Hx as Hs2 Hb2 Hevq. subst s2 b2. rewrite Hev in Hevq.
-    apply app_eq_nil in Hevq. destruct Hevq as [Hev1 Hev2].
-    apply (IH s1 (bel_update (im_tbl s1) (im_now s1) p rs1 b) s' b' ev2); auto.
+    destruct out as [s1 rs1]. cbn [fst snd] in Hin.
+    apply (IH s1 (bel_update (im_tbl s1) (im_now s1) p rs1 b) s' b'); auto.
     eapply im_step_inv; eauto.
 Qed.
 
+(* the full statement for the in-memory service: every believer is the holder, hence
+   two believers of one key are the same owner *)
+Lemma im_mutex cfg ops s b :
+  In (s, b) (im_run cfg ops im_init no_belief) ->
+  forall k o1 o2,
+    (believerb b (im_now s) o1 k = true -> heldb (im_tbl s) (im_now s) k o1 = true) /\
+    (believerb b (im_now s) o1 k = true -> believerb b (im_now s) o2 k = true -> o1 = o2).
+Proof.
+  intros Hin k o1 o2.
+  pose proof (im_run_inv cfg ops im_init no_belief s b (inv_init 0) Hin) as Hi.
+  split.
+  - apply inv_believer_held. exact Hi.
+  - intros H1 H2. eapply heldb_unique; eapply inv_believer_held; eauto.
+Qed.
+
+(* a Lock never makes an unexpired entry of ANOTHER owner disappear, full or not *)
+Lemma im_lock_keeps_foreign cfg s o d ks s' rs k1 o1 :
+  In (s', rs) (im_step cfg s (OLock o d ks)) -> o1 <> o ->
+  heldb (im_tbl s) (im_now s) k1 o1 = true -> heldb (im_tbl s') (im_now s') k1 o1 = true.
+Proof.
+  cbn [im_step]. intros Hin Hne Hh.
+  destruct (im_lock_props _ _ _ _ _ _ _ Hin) as [Hnow [Hfr _]].
+  destruct (heldb_lookup _ _ _ _ Hh) as [e [Hl He]].
+  unfold heldb. rewrite (Hfr k1 o1 e Hl He), Hnow by (intros [Ho _]; auto).
+  rewrite N.eqb_refl, He. auto.
+Qed.
+
+(* a successful Lock holds every key it was asked for (no self-eviction) *)
+Lemma im_lock_true_holds cfg s o d ks s' rs k :
+  In (s', rs) (im_step cfg s (OLock o d ks)) -> fst rs = true -> In k ks ->
+  heldb (im_tbl s') (im_now s') k o = true.
+Proof.
+  cbn [im_step]. unfold im_lock. intros Hin Hok Hk.
+  apply in_map_iff in Hin. destruct Hin as [out [Hout Hin]].
+  destruct out as [t2 rs2]. unfold im_out in Hout. cbn in Hout. inversion Hout; subst s' rs2. clear Hout.
+  destruct rs as [ok oth]. cbn in Hok. subst ok. cbn [im_tbl im_now].
+  assert (Hks : In k (sort_keys ks)) by (apply sort_keys_In; auto).
+  destruct (im_lock_loop_holds cfg (im_now s) o _ (expired_new _ _) _ _ _ _ _ Hin k Hks) as [e2 [H1 H2]].
+  unfold heldb. rewrite H1, N.eqb_refl, H2. auto.
+Qed.
+
 (* Unlock by anybody else never frees a held lock (any state, any capacity) *)
-Lemma im_unlock_foreign cfg s o' ks k o s' rs ev :
-  In (s', rs, ev) (im_step cfg s (OUnlock o' ks)) -> o' <> o ->
+Lemma im_unlock_foreign cfg s o' ks k o s' rs :
+  In (s', rs) (im_step cfg s (OUnlock o' ks)) -> o' <> o ->
   heldb (im_tbl s) (im_now s) k o = true -> heldb (im_tbl s') (im_now s') k o = true.
 Proof.
-  cbn [im_step]. intros Hin Hne Hh. apply in_single in Hin. inversion Hin; subst s' rs ev. cbn [im_tbl im_now].
+  cbn [im_step]. intros Hin Hne Hh. apply in_single in Hin. inversion Hin; subst s' rs. cbn [im_tbl im_now].
   destruct (heldb_lookup _ _ _ _ Hh) as [e [Hl He]].
   unfold heldb. rewrite lookup_release_own, Hl.
   assert (Hb : o =? o' = false) by (apply N.eqb_neq; auto). rewrite Hb. cbn.
   rewrite N.eqb_refl, He. auto.
 Qed.
+
+(* the translator found the guard in the code this model describes *)
+Lemma eviction_guard_present : lockEvictionSkipsHeldLocks = true.
+Proof. reflexivity. Qed.
 
 (* ------------------------------------------------------------ Redis adapter *)
 
@@ -737,166 +779,6 @@ Proof.
     assert (Hb : o =? o' = false) by (apply N.eqb_neq; auto). rewrite Hb in Hf. discriminate.
   - rewrite Hl, N.eqb_refl, He. auto.
 Qed.
-
-(* ------------------------------------------------------------ no eviction when the keys fit *)
-
-Definition keys (t : table) : list key := map fst t.
-Definition wf (t : table) : Prop := NoDup (keys t).
-
-Definition op_keys (p : op) : list key :=
-  match p with
-  | OLock _ _ ks | ODualLock _ _ ks | OIsLocked _ ks | OIsLockedTTL _ _ ks | OIsLockedByOthers ks | OUnlock _ ks => ks
-  | OTick _ => []
-  end.
-
-Lemma lookup_None_keys k t : lookup k t = None <-> ~ In k (keys t).
-Proof.
-  induction t as [|[k' v] r IH]; cbn; [tauto|].
-  destruct (k =? k') eqn:E.
-  - apply N.eqb_eq in E. subst. split; [discriminate|]. intros H. exfalso. apply H. auto.
-  - apply N.eqb_neq in E. rewrite IH. split.
-    + intros H [H1|H1]; [congruence|auto].
-    + intros H H1. apply H. auto.
-Qed.
-
-Lemma keys_remove_In x k t : In x (keys (remove k t)) <-> x <> k /\ In x (keys t).
-Proof.
-  induction t as [|[k' v] r IH]; cbn; [tauto|].
-  destruct (k =? k') eqn:E.
-  - apply N.eqb_eq in E. subst k'. rewrite IH. split.
-    + intros [H1 H2]. auto.
-    + intros [H1 [H2|H2]]; [congruence|auto].
-  - apply N.eqb_neq in E. cbn. rewrite IH. split.
-    + intros [H|[H1 H2]]; [subst; split; auto|auto].
-    + intros [H1 [H2|H2]]; auto.
-Qed.
-
-Lemma wf_remove k t : wf t -> wf (remove k t).
-Proof.
-  unfold wf. induction t as [|[k' v] r IH]; cbn; auto.
-  intros H. inversion H; subst. destruct (k =? k'); auto.
-  cbn. constructor; auto. intros Hin. apply keys_remove_In in Hin. tauto.
-Qed.
-
-Lemma wf_upsert k v t : wf t -> wf (upsert k v t).
-Proof.
-  intros H. unfold wf, upsert. cbn. constructor.
-  - intros Hin. apply keys_remove_In in Hin. tauto.
-  - apply wf_remove. auto.
-Qed.
-
-Definition fits (keyset : list key) (t : table) : Prop := wf t /\ incl (keys t) keyset.
-
-Lemma fits_remove ksn k t : fits ksn t -> fits ksn (remove k t).
-Proof.
-  intros [H1 H2]. split; [apply wf_remove; auto|].
-  intros x Hx. apply keys_remove_In in Hx. apply H2. tauto.
-Qed.
-
-Lemma fits_upsert ksn k v t : fits ksn t -> In k ksn -> fits ksn (upsert k v t).
-Proof.
-  intros H Hk. destruct (fits_remove ksn k t H) as [H1 H2]. split; [apply wf_upsert; apply H|].
-  intros x [Hx|Hx]; [cbn in Hx; subst; auto|]. apply H2. auto.
-Qed.
-
-Lemma fits_release_own ksn o ks : forall t, fits ksn t -> fits ksn (release_own o ks t).
-Proof.
-  induction ks as [|a r IH]; intros t H; cbn [release_own]; auto.
-  apply IH. destruct (lookup a t) as [[o' e]|]; auto. destruct (o' =? o); auto using fits_remove.
-Qed.
-
-Lemma fits_refresh ksn o e ks : forall t, fits ksn t -> (forall k, In k ks -> In k ksn) -> fits ksn (refresh o e ks t).
-Proof.
-  unfold refresh. induction ks as [|a r IH]; intros t H Hk; cbn [fold_left]; auto.
-  apply IH; [apply fits_upsert; auto; apply Hk; cbn; auto|]. intros k Hin. apply Hk. cbn. auto.
-Qed.
-
-Lemma fits_ttl_check ksn now o ks : forall t, fits ksn t -> fits ksn (snd (im_ttl_check now o ks t)).
-Proof.
-  induction ks as [|a r IH]; intros t H; cbn [im_ttl_check]; auto.
-  destruct (lookup a t) as [[o' e]|]; auto. destruct (negb (o' =? o)); auto.
-  destruct (expired now e); auto. cbn. apply fits_remove. auto.
-Qed.
-
-Lemma filter_length_le {A} (f : A -> bool) l : (length (filter f l) <= length l)%nat.
-Proof. induction l as [|a r IH]; cbn; auto. destruct (f a); cbn; lia. Qed.
-
-(* a new key never finds its shard full *)
-Lemma fits_not_full cfg ksn t k :
-  fits ksn t -> lookup k t = None -> In k ksn -> (length ksn <= im_cap cfg)%nat ->
-  Nat.leb (im_cap cfg) (length (shard_entries cfg t (im_shard cfg k))) = false.
-Proof.
-  intros [Hwf Hincl] Hl Hk Hcap. apply Nat.leb_gt.
-  assert (Hlen : (length (k :: keys t) <= length ksn)%nat).
-  { apply NoDup_incl_length.
-    - constructor; auto. apply lookup_None_keys. auto.
-    - intros x [Hx|Hx]; [subst; auto|auto]. }
-  cbn in Hlen. unfold keys in Hlen. rewrite map_length in Hlen.
-  pose proof (filter_length_le (fun e => im_shard cfg (fst e) =? im_shard cfg k) t) as Hf.
-  unfold shard_entries. lia.
-Qed.
-
-Lemma im_lock_loop_noev cfg now o e ksn : (length ksn <= im_cap cfg)%nat ->
-  forall ks acq t t' rs ev, fits ksn t -> (forall k, In k ks -> In k ksn) ->
-  In (t', rs, ev) (im_lock_loop cfg now o e ks acq t) -> ev = [] /\ fits ksn t'.
-Proof.
-  intros Hcap. induction ks as [|k r IH]; intros acq t t' rs ev Hf Hks Hin.
-  - apply in_single in Hin. inversion Hin; subst. auto.
-  - cbn [im_lock_loop] in Hin.
-    assert (Hk : In k ksn) by (apply Hks; cbn; auto).
-    assert (Hr : forall x, In x r -> In x ksn) by (intros x Hx; apply Hks; cbn; auto).
-    destruct (lookup k t) as [[o' e']|] eqn:Hl.
-    + destruct (expired now e').
-      * apply (IH (k :: acq) (upsert k (o, e) t) t' rs ev); auto. apply fits_upsert; auto.
-      * destruct (o' =? o).
-        -- apply (IH acq t t' rs ev); auto.
-        -- apply in_single in Hin. inversion Hin; subst. split; auto using fits_release_own.
-    + rewrite (fits_not_full cfg ksn t k Hf Hl Hk Hcap) in Hin.
-      apply (IH (k :: acq) (upsert k (o, e) t) t' rs ev); auto. apply fits_upsert; auto.
-Qed.
-
-Lemma im_step_noev cfg ksn s p s' rs ev : (length ksn <= im_cap cfg)%nat ->
-  fits ksn (im_tbl s) -> (forall k, In k (op_keys p) -> In k ksn) ->
-  In (s', rs, ev) (im_step cfg s p) -> ev = [] /\ fits ksn (im_tbl s').
-Proof.
-  intros Hcap Hf Hks Hin.
-  assert (Hlock : forall o d ks s1 rs1 ev1, (forall k, In k ks -> In k ksn) ->
-            In (s1, rs1, ev1) (im_lock cfg s o d ks) -> ev1 = [] /\ fits ksn (im_tbl s1)).
-  { intros o d ks s1 rs1 ev1 Hk H1. unfold im_lock in H1. apply in_map_iff in H1.
-    destruct H1 as [out [Hout H1]]. destruct out as [[t2 rs2] ev2]. unfold im_out in Hout. cbn in Hout.
-    inversion Hout; subst s1 rs2 ev2. cbn.
-    apply (im_lock_loop_noev cfg (im_now s) o (Some (im_now s + im_ttl cfg d)) ksn Hcap (sort_keys ks) [] (im_tbl s) t2 rs1 ev1); auto.
-    intros k Hin1. apply Hk. apply sort_keys_In. auto. }
-  destruct p as [o d ks|o d ks|o ks|o d ks|ks|o ks|n]; cbn [im_step] in Hin; cbn [op_keys] in Hks.
-  - eapply Hlock; eauto.
-  - apply in_map_iff in Hin. destruct Hin as [x [Hx Hin]]. destruct x as [[s1 rs1] ev1]. cbn in Hx.
-    destruct (fst rs1); inversion Hx; subst; eapply Hlock; eauto.
-  - apply in_single in Hin. inversion Hin; subst. auto.
-  - destruct (fst (im_ttl_check (im_now s) o ks (im_tbl s)));
-      apply in_single in Hin; inversion Hin; subst; cbn; split; auto using fits_refresh, fits_ttl_check.
-  - apply in_single in Hin. inversion Hin; subst. auto.
-  - apply in_single in Hin. inversion Hin; subst. cbn. auto using fits_release_own.
-  - apply in_single in Hin. inversion Hin; subst. cbn. auto.
-Qed.
-
-Lemma im_run_noev cfg ksn : (length ksn <= im_cap cfg)%nat -> forall ops s b s' b' ev,
-  fits ksn (im_tbl s) -> (forall p k, In p ops -> In k (op_keys p) -> In k ksn) ->
-  In (s', b', ev) (im_run cfg ops s b) -> ev = [].
-Proof.
-  intros Hcap. induction ops as [|p r IH]; intros s b s' b' ev Hf Hks Hin.
-  - apply in_single in Hin. inversion Hin; subst. auto.
-  - cbn [im_run] in Hin. apply in_flat_map in Hin. destruct Hin as [out [Hout Hin]].
-    apply in_map_iff in Hin. destruct Hin as [x [Hx Hin]].
-    destruct out as [[s1 rs1] ev1]. destruct x as [[s2 b2] ev2]. cbn in Hx, Hin.
-    injection Hx as Hs2 Hb2 Hevq. subst s2 b2 ev.
-    destruct (im_step_noev cfg ksn s p s1 rs1 ev1 Hcap Hf) as [Hev1 Hf1]; auto.
-    { intros k Hk. eapply Hks; eauto. cbn. auto. }
-    rewrite Hev1. cbn.
-    eapply IH; eauto. intros p0 k Hp Hk. eapply Hks; eauto. cbn. auto.
-Qed.
-
-Lemma fits_nil ksn : fits ksn [].
-Proof. split; [constructor|intros x []]. Qed.
 
 (* ------------------------------------------------------------ Redis: polite clients meet no hazard *)
 
